@@ -69,7 +69,8 @@ func (w *Writer) Finished() bool {
 // OnHeader implements packfile.Observer interface.
 func (w *Writer) OnHeader(count uint32) error {
 	w.count = count
-	w.objects = make(objects, 0, count)
+	// count comes from the (untrusted) pack header: it is only a capacity hint
+	w.objects = make(objects, 0, min(count, 1<<16))
 	return nil
 }
 
